@@ -138,6 +138,11 @@ func (mem *Mempool) checkTxs(msg *queue.Message) *queue.Message {
 			return msg
 		}
 	}
+	// a member's Header is the hash of the group head, not an encoded group: the per-member IsExpire above may
+	// mistake it for an (empty) group and report "not expired". Check the expiry of the whole group as well.
+	if valid, err := mem.CheckExpireValid(msg); !valid {
+		msg.Data = err
+	}
 	return msg
 }
 
